@@ -164,6 +164,7 @@ DeleteOne(st, cfg, b, k, vid) ==
          IN IF s = <<>> THEN drops
             ELSE CASE cfg.suspDelete = "marker" -> markers
                    [] cfg.suspDelete = "drop"   -> drops
+                   [] cfg.suspDelete = "code"   -> IF Cur(s).nul THEN drops ELSE markers
                    [] OTHER                     -> markers \cup drops
     [] OTHER -> {[st |-> SetStack(st, b, k, <<>>), vid |-> "", dm |-> FALSE]}
 
